@@ -501,8 +501,8 @@ def codeql_reader(r1: Tuple[int, int, int, int, int, int], r2: Tuple[int, int, i
             if not with_region:
                 exp.append((pick(RULES, rsel), str(pick(FILES, f)), 0, -1, 0, -1))
             else:
-                c0 = sc if with_cols else None
-                exp.append((pick(RULES, rsel), str(pick(FILES, f)), sl, c0, el if with_end else sl, (ec if with_cols else None) if with_end else c0))
+                c0 = sc if with_cols else 1  # SARIF default
+                exp.append((pick(RULES, rsel), str(pick(FILES, f)), sl, c0, el if with_end else sl, (ec if with_cols else 1) if with_end else c0))
     data = {"runs": runs}
 
     class F:
@@ -528,6 +528,8 @@ def codeql_reader(r1: Tuple[int, int, int, int, int, int], r2: Tuple[int, int, i
             for res in lst:
                 loc = res.locations[0]
                 got.append((rule, str(f), loc.start.line, loc.start.column, loc.end.line, loc.end.column))
+                if with_region and (loc.start.column is None or loc.end.column is None):
+                    return False  # a column left as None makes match_location raise TypeError for every node
     return fin(same_ms(got, exp))
 
 
